@@ -1,4 +1,5 @@
 import DdoModel.Engines.Small
+import DdoModel.Engines.Fringe
 /-! Line-protocol driver.  stdin: pairs of lines
       `C <engine> <id> <case tokens…>`
       `I <id> <implementation output tokens…>`
@@ -11,6 +12,7 @@ def dispatch (engine : String) (c i : List String) : Option Res :=
   | "width" => widthEngine c i
   | "cache" => cacheEngine c i
   | "dom" => domEngine c i
+  | "fringe" => fringeEngine c i
   | _ => none
 
 partial def loop (h : IO.FS.Stream) (out : IO.FS.Stream) : IO Unit := do
